@@ -284,6 +284,35 @@ func history(c *core.Ctx, r *core.Result, stream string, idx int, rng *rand.Rand
 	}
 	s.hbi = l.Snap().HeartBtInt
 	s.absorb()
+	// a later connection may announce a different interval: the acceptor adopts the interval of each Logon
+	if script == nil && rng.Intn(3) == 0 {
+		second := core.Pick(rng, 1, 3, 9, 20, 45, 90)
+		l.Disconnect()
+		if err := l.Connect(); err == nil {
+			s.absorb()
+			l.In("Logon (second connection)", s.p.Logon(l.Snap().NextTarget, second))
+			s.p.NextOut = l.Snap().NextTarget
+			if !l.Snap().LoggedOn {
+				return
+			}
+			want2 := time.Duration(second) * time.Second
+			if cf.Initiator || cf.Override {
+				want2 = time.Duration(cf.CfgHBI) * time.Second
+			}
+			if got := l.Snap().HeartBtInt; got != want2 {
+				s.vio("logon-interval-not-adopted/second-connection: on the second connection the session uses %v; that Logon announced %d s (first connection %d s), configured %d s, HeartBtIntOverride=%v, initiator=%v", got, second, cf.HBI, cf.CfgHBI, cf.Override, cf.Initiator)
+			}
+			for _, fs := range l.OutThisStep {
+				if t, _ := fs.Get(35); t == "A" && !cf.Initiator {
+					if v, _ := fs.Int(108); time.Duration(v)*time.Second != want2 {
+						s.vio("logon-interval-not-adopted/reply: the Logon reply announces HeartBtInt %d, expected %v", v, want2)
+					}
+				}
+			}
+			s.hbi = l.Snap().HeartBtInt
+			s.absorb()
+		}
+	}
 	steps := 8 + rng.Intn(40)
 	if script != nil {
 		steps = len(script)
